@@ -187,9 +187,10 @@ bool StepScript(InterpreterEnv& env)
             return set_error(serror, SCRIPT_ERR_EVAL_FALSE);
         // Additional validation for spend-to-script-hash transactions:
         if (env.script.IsPayToScriptHash()) {
-            // // scriptSig must be literals-only or validation fails
-            // if (!scriptSig.IsPushOnly())
-            //     return set_error(serror, SCRIPT_ERR_SIG_PUSHONLY);
+            // scriptSig must be literals-only or validation fails (BIP16). scriptIn is the script the session
+            // started with; it is the scriptSig exactly when this scriptPubKey was reached as a successor script.
+            if (env.scriptIn != env.script && !env.scriptIn.IsPushOnly())
+                return set_error(serror, SCRIPT_ERR_SIG_PUSHONLY);
 
             // Restore stack.
             is_p2sh = false;
